@@ -50,6 +50,11 @@ func (f *Frame) execCall(i *ssa.Call, st *State, r *string) Val {
 		return f.callLib(i, fv.Fn.Fn, args, st, *r)
 	}
 	// call through a function-typed parameter / unknown function value
+	if fv.FnK != "" {
+		if fc2 := c.eng.cs.Funcs[fv.FnK]; fc2 != nil {
+			return f.callContract(i, nil, fc2, fv.FnK, args, fv, st, *r)
+		}
+	}
 	if f.fc != nil {
 		name := ""
 		switch p := com.Value.(type) {
@@ -288,12 +293,36 @@ func (f *Frame) callContract(i *ssa.Call, g *ssa.Function, fc2 *FuncContract, ke
 		resT = sig.Results()
 		modKeys = f.calleeModKeys(i.Common())
 	}
+	// a function that implements a no-body contract also offers that contract's clauses to its callers
+	reqs, enss, mods := fc2.Requires, fc2.Ensures, fc2.Modifies
+	if g != nil && fc2.Implements != "" {
+		if kfc := c.eng.cs.Funcs[fc2.Implements]; kfc != nil {
+			off := 0
+			if g.Signature.Recv() != nil && len(args) > 0 {
+				off = 1
+				ev.vars["self"] = SVal{T: args[0].T, S: args[0].S, GT: g.Params[0].Type()}
+			}
+			names := c.eng.contractParamNames(fc2.Implements, g)
+			for k := off; k < len(g.Params) && k < len(args); k++ {
+				sv := SVal{T: args[k].T, S: args[k].S, GT: g.Params[k].Type()}
+				ev.vars[fmt.Sprintf("arg%d", k-off)] = sv
+				if k-off < len(names) {
+					if _, own := ev.vars[names[k-off]]; !own {
+						ev.vars[names[k-off]] = sv
+					}
+				}
+			}
+			reqs = append(append([]*Clause{}, kfc.Requires...), reqs...)
+			enss = append(append([]*Clause{}, kfc.Ensures...), enss...)
+			mods = append(append([]*Clause{}, kfc.Modifies...), mods...)
+		}
+	}
 	f.checkFnArgs(i, g, fc2, key, args, site, r)
 	// implicit: receiver non-nil
 	if g != nil && g.Signature.Recv() != nil && len(args) > 0 && !fc2.Nullable[g.Params[0].Name()] {
 		f.oblige("pre[nonnil]@"+site, nil, r, "(not (= "+args[0].T+" 0))")
 	}
-	for _, rq := range fc2.Requires {
+	for _, rq := range reqs {
 		goal, err := c.skolemGoal(rq.Expr, ev, r)
 		if err != nil {
 			c.errorf("%s: requires of %s at call: %v", rq.Where, key, err)
@@ -304,7 +333,7 @@ func (f *Frame) callContract(i *ssa.Call, g *ssa.Function, fc2 *FuncContract, ke
 		_ = ob
 	}
 	pre := st.clone()
-	objs, err := ev.modifiesObjects(fc2.Modifies)
+	objs, err := ev.modifiesObjects(mods)
 	if err != nil {
 		c.errorf("%s: modifies of %s: %v", fc2.Where, key, err)
 	}
@@ -356,7 +385,7 @@ func (f *Frame) callContract(i *ssa.Call, g *ssa.Function, fc2 *FuncContract, ke
 		post.vars[k] = v
 	}
 	bindResults(post.vars, resT, vals)
-	for _, en := range fc2.Ensures {
+	for _, en := range enss {
 		g2, err := post.evalBool(en.Expr)
 		if err != nil {
 			c.errorf("%s: ensures of %s at call: %v", en.Where, key, err)
@@ -690,6 +719,8 @@ func (f *Frame) checkFnArgs(i *ssa.Call, g *ssa.Function, fc2 *FuncContract, key
 					okBound = true
 				}
 			}
+		} else if args[k].FnK == want {
+			okBound = true
 		} else if f.fc != nil {
 			// the caller's own parameter (loaded from its cell)
 			var pn string
